@@ -148,7 +148,7 @@ func runCheck(cmd, id, repo, verif, tier string, keep bool, only string, verbose
 	outDir := filepath.Join(verif, "out", id)
 	os.RemoveAll(outDir)
 	os.MkdirAll(outDir, 0o755)
-	cfg := &SolverCfg{outDir: outDir, timeout: 10 * time.Second, first: 2 * time.Second, workers: runtime.NumCPU() - 2, seed: seed, keepSMT: keep}
+	cfg := &SolverCfg{outDir: outDir, timeout: 15 * time.Second, first: 4 * time.Second, workers: runtime.NumCPU() / 2, seed: seed, keepSMT: keep}
 	if tier == "thorough" {
 		cfg.timeout = 60 * time.Second
 		cfg.first = 5 * time.Second
@@ -190,6 +190,15 @@ func runCheck(cmd, id, repo, verif, tier string, keep bool, only string, verbose
 	tGen := time.Since(t0).Seconds() - tLoad
 
 	filter := func(o *Obligation) bool { return hasID(o.ids, id) }
+	cfg.noRetry = map[string]bool{}
+	if kb, err := os.ReadFile(filepath.Join(verif, "known_findings.json")); err == nil {
+		var kf KnownFile
+		if json.Unmarshal(kb, &kf) == nil {
+			for _, k := range kf.Findings {
+				cfg.noRetry[k.Obligation] = true
+			}
+		}
+	}
 	eng.solveAll(results, cfg, filter)
 
 	// collect
